@@ -15,3 +15,27 @@ Proof. vm_compute. reflexivity. Qed.
 Theorem C17_offset_origin_unrewritten : forall n u o off t,
   rewrite_texpr (TB3Off n u o off) = EUnch /\ rewritten_value (TB3Off n u o off) t = eval_orig (TB3Off n u o off) t.
 Proof. intros. split; reflexivity. Qed.
+
+(* The regular expressions that decide WHAT is rewritten, re-extracted from the source on every
+   run.  The model was written for exactly these: the admitted interval-amount language is
+   digits followed by optional blanks ((\d+)\s*, no fraction, no sign, no leading blank), the unit
+   alternation is the one below, the trailing empty check must be followed by GROUP / ORDER /
+   LIMIT / end of text (not by a closing parenthesis), the first reordering by a non-quote. *)
+Open Scope string_scope.
+
+Theorem C17_amount_language_and_terminators :
+  rx_patternTimeBucket2Args_amount = "(\d+)\s*" /\ rx_patternTimeBucket3Args_amount = "(\d+)\s*" /\
+  rx_patternTimeBucket2Args_units = "second|seconds|minute|minutes|hour|hours|day|days|week|weeks|month|months" /\
+  rx_patternTimeBucket3Args_units = rx_patternTimeBucket2Args_units /\
+  rx_patternEndEmptyCheck_after_check = "(\s*(?:GROUP|ORDER|LIMIT|$))" /\
+  rx_patternEmptyCheckAfterLike_after_check = "([^']|$)" /\
+  rx_patternTopLevelOr = "(?i)\bOR\b".
+Proof. repeat split; reflexivity. Qed.
+
+Theorem C17_regex_sources_pinned :
+  rx_patternTimeBucket2Args = "(?i)\btime_bucket\s*\(\s*(?:INTERVAL\s*)?'(\d+)\s*(second|seconds|minute|minutes|hour|hours|day|days|week|weeks|month|months)'\s*,\s*([^,)]+)\)" /\
+  rx_patternTimeBucket3Args = "(?i)\btime_bucket\s*\(\s*(?:INTERVAL\s*)?'(\d+)\s*(second|seconds|minute|minutes|hour|hours|day|days|week|weeks|month|months)'\s*,\s*([^,]+)\s*,\s*(?:TIMESTAMP\s*)?'([^']+)'\s*\)" /\
+  rx_patternDateTrunc = "(?i)\bdate_trunc\s*\(\s*'(second|minute|hour|day|week|month)'\s*,\s*([^)]+)\)" /\
+  rx_patternEmptyCheckAfterLike = "(?i)(WHERE\s+)(\w+\s+(?:NOT\s+)?LIKE\s+'[^']+')(\s+AND\s+)(\w+\s*<>\s*'')([^']|$)" /\
+  rx_patternEndEmptyCheck = "(?i)(WHERE\s+)(.*?)(\s+AND\s+)(\w+\s*<>\s*'')(\s*(?:GROUP|ORDER|LIMIT|$))".
+Proof. repeat split; reflexivity. Qed.
